@@ -12,7 +12,7 @@ import (
 func init() {
 	register("C06", &ruleSet{
 		run:    runC06,
-		floors: map[string]int{"O1": 3, "O2": 1, "O3": 4},
+		floors: map[string]int{"O1": 3, "O2": 1, "O3": 4, "O4": 3},
 		explain: "Decides the direction clauses of the loss response (real arithmetic; the exact AIMD value and the bounded-steps convergence are declined: the first would be a " +
 			"frozen term match, the second is numeric): (O1) drop never raises: in AIMD, Vegas and Gradient, on every path on which the drop flag's true edge was taken and the " +
 			"estimate is stored, the stored value is proved <= max(old estimate, the algorithm's own lower clamp: 1 / minLimit / queue allowance); AIMD additionally makes " +
@@ -29,6 +29,15 @@ func runC06(p *Prog, l *Ledger) {
 	l.NotCovered = []string{"the exact AIMD value max(1, min(limit-1, floor(limit x ratio)))", "reaching the floor within a bounded number of samples", "user-supplied decrease functions", "Gradient2 (not loss-sensitive by design)"}
 	l.Assume("valid configuration: backoff ratio in (0,1], smoothing in (0,1], minLimit <= maxLimit; inductive hypothesis on the old estimate")
 
+	l.Rule("O4", "the update is atomic: every read of the estimate that feeds a stored estimate happens in the same exclusive critical section as the store")
+	locksC06 := p.Locksets()
+	for _, af := range algoFuncs(p, l) {
+		if af.A.T.Obj().Name() == "Gradient2Limit" {
+			continue
+		}
+		n, bad := algoRMWProblems(p, locksC06, af)
+		l.Check(len(bad) == 0 && n > 0, "O4", p.Key(af.Fn)+"/read-modify-write", p.FuncPos(af.Fn), fmt.Sprintf("%d store(s): computed from the estimate read under the same hold of the exclusive mutex", n), "overlapping samples can apply the loss response to a stale estimate (a drop can end up raising it)", bad...)
+	}
 	stepOK, stepWhy := tableStepNonNegative(p)
 	for _, af := range algoFuncs(p, l) {
 		if af.A.T.Obj().Name() == "Gradient2Limit" {
